@@ -60,6 +60,20 @@ func (db *DB) resolveByteOffset(
 	return db.resolver.byteOffset(ctx, iter, sampleOffset)
 }
 
+// resolveSampleCount opens a short-lived domain iterator at domainStart and asks the
+// resolver for the number of samples stored in that domain.
+func (db *DB) resolveSampleCount(
+	ctx context.Context,
+	domainStart telem.TimeStamp,
+) (count int64, err error) {
+	iter := db.domain.OpenIterator(domain.IterRange(domainStart.SpanRange(telem.TimeSpanMax)))
+	defer func() { err = errors.Combine(err, iter.Close()) }()
+	if !iter.SeekGE(ctx, domainStart) {
+		return 0, errors.Newf("cannot find domain starting at %s", domainStart)
+	}
+	return db.resolver.domainSampleCount(ctx, iter)
+}
+
 func (db *DB) lockControllerForNonWriteOp(tr telem.TimeRange, opName string) (release func(), err error) {
 	g, _, err := db.controller.OpenGate(control.GateConfig[*controlledWriter]{
 		ErrIfControlled: new(true),
@@ -235,24 +249,20 @@ func (db *DB) calculateEndOffset(
 			// If both start and end are inexact, sampleOffset is in between the two. (Note
 			// that the start is only inexact because of domain cutoff).
 			sampleOffset = (approxDist.Lower + approxDist.Upper) / 2
-			// We stamp to sampleOffset - 1 here since if we are approximating the start sampleOffset,
-			// we want to stamp the last written sample.
-			if approxStamp, err = db.index().Stamp(
-				ctx,
-				domainStart,
-				sampleOffset,
-				index.MustBeContinuous,
-			); err != nil {
-				return 0, 0, err
-			}
-			// Since the domain start is inexact, the stamp is approximated between the
-			// last deleted sample (lower) and the first kept sample (upper): the kept
-			// domain must start at the first kept sample.
-			ts = approxStamp.Upper
 		} else if !approxDist.StartExact {
 			// If start is inexact, we must use the lower approximation. (Note that the
 			// start is only inexact because of domain cutoff).
 			sampleOffset = approxDist.Lower
+		}
+		// The end of a domain is not necessarily right after its last sample (e.g. when
+		// it was set by a previous deletion), so ts may lie after the last sample of
+		// the domain. In that case there is no next sample to snap to and nothing in
+		// this domain is kept.
+		sampleCount, err := db.resolveSampleCount(ctx, domainStart)
+		if err != nil {
+			return 0, 0, err
+		}
+		if sampleOffset < sampleCount {
 			approxStamp, err = db.index().Stamp(
 				ctx,
 				domainStart,
@@ -262,18 +272,10 @@ func (db *DB) calculateEndOffset(
 			if err != nil {
 				return 0, 0, err
 			}
+			// If the domain start is inexact, the stamp is approximated between the
+			// last deleted sample (lower) and the first kept sample (upper): the kept
+			// domain must start at the first kept sample.
 			ts = approxStamp.Upper
-		} else {
-			approxStamp, err = db.index().Stamp(
-				ctx,
-				domainStart,
-				sampleOffset,
-				index.MustBeContinuous,
-			)
-			if err != nil {
-				return 0, 0, err
-			}
-			ts = approxStamp.Lower
 		}
 	}
 	byteOff, err := db.resolveByteOffset(ctx, domainStart, sampleOffset)
